@@ -17,6 +17,11 @@ def rnd_inputs(rnd, op):
          "now": rnd.choice([0, 1, 1700000000, 2 ** 31, 2 ** 32 - 2, rnd.randrange(2 ** 32 - 2)]) + rnd.choice([0, 0.25, 0.5, 0.75])}
     if i["now"] > 2 ** 32 - 2:
         i["now"] = 2 ** 32 - 2
+    if rnd.random() < 0.15:
+        # a login reply whose session id (bytes 8..12) or later bytes happen to contain the frame magic fe f0 / f0 fe
+        r1 = bytearray(rnd.randrange(256) for _ in range(rnd.choice([12, 44, 60])))
+        r1[8:12] = rnd.choice([b"\x17\xfe\xf0\x42", b"\xfe\xf0\x00\x01", b"\xa1\xb2\xfe\xf0", b"\xf0\xfe\xfe\xf0"])
+        i["R1"] = canon(bytes(r1))
     if op == "control_device":
         i["command"] = canon(rnd.choice(list(Command)))
         i["minutes"] = rnd.choice([0, 1, -1, 59, 60, 600, 71582788, 71582789, rnd.randrange(0, 100000)])
@@ -47,7 +52,7 @@ def rnd_inputs(rnd, op):
 UNNORMALISED = ["cafe\u0301", "e\u0301" * 10, "\u1112\u1161\u11ab", "\u212b\u2126", "\ufb2a\ufb2b boiler", "\u0915\u093c" * 5, "A\u030a", "\u1e9b\u0323",
                 "\ufb01t", "\u00e9" + "e\u0301"]
 OPS = [("control_device", 1), ("set_auto_shutdown", 1), ("set_device_name", 1), ("get_schedules", 1), ("delete_schedule", 1),
-       ("create_schedule", 1), ("get_state", 1), ("stop", 2), ("set_position", 2), ("get_shutter_state", 2), ("get_breeze_state", 2)]
+       ("create_schedule", 1), ("get_state", 1), ("stop", 1), ("stop", 2), ("set_position", 2), ("get_shutter_state", 2), ("get_breeze_state", 2)]
 
 
 def run_case(c):
@@ -106,7 +111,8 @@ def run_case(c):
         return {"ok": True, "evaluations": i["n"]}
     if k == "encoders":
         n = 0
-        rng = range(-2 * 86400, 3 * 86400 + 1) if i.get("full") else list(range(3500, 3700)) + list(range(86300, 86500)) + list(range(-120, 120))
+        rng = range(-2 * 86400, 3 * 86400 + 1) if i.get("full") else list(range(3500, 3700)) + list(range(86300, 86500)) + list(range(-120, 120)) + \
+            [60 * m_ + d_ for m_ in range(55, 1445) for d_ in (0, 59)]      # every whole minute 0:55 .. 24:04 (float detours lose single minutes)
         for t in rng:
             td = datetime.timedelta(seconds=t)
             r = compare(lambda: dtools.timedelta_to_hexadecimal_seconds(td), lambda: spec.auto_shutdown_spec(t))
